@@ -127,13 +127,15 @@ PROPS["C04"] = dict(
     rule="every interleaving of {present, absent, Err(1), Err(2)} up to length 4; random histories up to 64 (256) events with strictly "
          "increasing timestamps (dt log-uniform 1 us..2 h), random gains/setpoints/values; each random history is accompanied by the same "
          "history shifted by a constant (outputs must be identical apart from the timestamp) and scaled by 2^k, k in [-8,8] (outputs must "
-         "scale exactly) — metamorphic oracles evaluated on the implementation's own outputs; all lines compared bit-for-bit with the model",
+         "scale exactly) and by the same history fed to the controller assembled from the crate's own streams as in examples/pid.rs "
+         "(outputs must agree after every present input) — oracles evaluated on the implementation's own outputs; all lines compared "
+         "bit-for-bit with the model",
     trusted_base=COMMON_TB,
     assumptions=COMMON_AS,
     partial="Proved: output = non-incremental textbook PID of the current run for every history (tier S, bit-exact), reset rule, shift "
-            "invariance (tier S), scaling in exact arithmetic (tier R). Not yet covered by a theorem or a harness group: agreement with the "
-            "controller assembled from the crate's difference/integral/derivative/product/sum streams (examples/pid.rs wiring); f32 rounding "
-            "of the scaling law is tested (exact for powers of two), not proved.",
+            "invariance (tier S), scaling in exact arithmetic (tier R), exact agreement with the controller assembled from the crate's own "
+            "difference/integral/derivative/product/sum streams after every present input of every history (tier L: x+y=y+x and 0+x=x; "
+            "units unchecked). f32 rounding of the scaling law is tested (exact for powers of two), not proved.",
 )
 
 PROPS["C15"] = dict(
